@@ -53,6 +53,8 @@ class CostSpec(cost_spec.CostSpec):
 
     @raw_number_per.setter
     def __raw_number_per(self, value: Optional[NumberExpr]) -> None:
+        if value is not None:
+            internal.check_reusable([value])
         self._merge_number_and_currency()
         if compound_amount := self.raw_compound_amount_comp:  # CompoundAmount
             compound_amount.raw_number_per = value
@@ -100,6 +102,8 @@ class CostSpec(cost_spec.CostSpec):
 
     @raw_number_total.setter
     def __raw_number_total(self, value: Optional[NumberExpr]) -> None:
+        if value is not None:
+            internal.check_reusable([value])
         self._merge_number_and_currency()
         if compound_amount := self.raw_compound_amount_comp:  # CompoundAmount
             compound_amount.raw_number_total = value
@@ -144,6 +148,8 @@ class CostSpec(cost_spec.CostSpec):
 
     @raw_currency.setter
     def __raw_currency(self, value: Optional[Currency]) -> None:
+        if value is not None:
+            internal.check_reusable([value])
         self._merge_number_and_currency()
         if compound_amount := self.raw_compound_amount_comp:
             if value:  # CompoundAmount
